@@ -274,6 +274,10 @@ pub fn pool() -> Vec<RV> {
     for s in ["", "a", "b", "ab", "Ab", "äb", "日本", "😀", " ", " a b ", "ß", "\"\\"] {
         v.push(RV::Str(s.to_string()));
     }
+    // strings that spell a value of another type: still strings (round 11)
+    for s in ["2", "1.5", " 4 ", "-1", "0", "1e3", "inf", "NaN", "0x10", "true", "()", "(1, 2)"] {
+        v.push(RV::Str(s.to_string()));
+    }
     v.push(RV::Bool(true));
     v.push(RV::Bool(false));
     v.push(RV::Empty);
